@@ -26,6 +26,10 @@ FAMILIES = {
     'g20': ('2e-5', '1e-6', '2e-5', '1e-7'),
     'p64': ('6.4e-6', '6.4e-6', '6.4e-6', '1e-7'),
     'fine': ('1e-5', '5e-7', '1e-5', '5e-8'),
+    # all four rasters pairwise different (a raster mix-up in the code cannot hide behind equal values)
+    'b10g5': ('1e-5', '1e-6', '5e-6', '1e-7'),          # gradient raster finer than the block raster
+    'b10g20': ('1e-5', '5e-7', '2e-5', '2.5e-8'),       # gradient raster coarser than the block raster
+    'b20g10': ('2e-5', '2e-6', '1e-5', '5e-8'),
 }
 
 
@@ -34,7 +38,7 @@ def fl(fr):
 
 
 def gen_system(rng):
-    name = rng.choice(['siemens', 'siemens', 'ge', 'g20', 'p64', 'fine'])
+    name = rng.choice(['siemens', 'siemens', 'ge', 'g20', 'p64', 'fine', 'b10g5', 'b10g5', 'b10g20', 'b10g20', 'b20g10'])
     br, rr, gr, ar = (Fraction(s) for s in FAMILIES[name])
     # dead times as multiples of the rf raster (ADC delays have to be on the rf raster)
     def mult(us_choices):
@@ -164,9 +168,11 @@ def slot_of(ev):
     return None
 
 
-def gen_block(rng, s, opts, pad=True, p_rf=0.4, p_g=0.4, p_adc=0.35):
+def gen_block(rng, s, opts, pad=True, p_rf=0.4, p_g=0.4, p_adc=0.35, p_long=0.0, p_empty=0.0):
     import pypulseq as pp
     evs = []
+    if rng.random() < p_empty:
+        p_rf = p_g = p_adc = 0.0            # pure delay (TR fill) block
     if rng.random() < p_rf:
         evs.append(gen_event(rng, s, rng.choice(['rfb', 'rfb', 'rfs'])))
     for ch in 'xyz':
@@ -183,6 +189,8 @@ def gen_block(rng, s, opts, pad=True, p_rf=0.4, p_g=0.4, p_adc=0.35):
         d = F(pp.calc_duration(*built)) if built else Fraction(0)
         br = F(s['block'])
         k = math.ceil(d / br - Fraction(1, 10 ** 6)) + rng.choice([0, 0, 0, 1, 13])
+        if rng.random() < p_long:
+            k += rng.randint(10 ** 5, 3 * 10 ** 6)      # seconds-long delay: 1e5 .. 3e6 block rasters
         evs.append({'k': 'delay', 'delay': fl(max(k, 1) * br), 'alt': False, 'set': {}})
     rng.shuffle(evs)
     return {'events': evs}
@@ -216,7 +224,7 @@ def rf_use_code(rf):
     return 1 if rf.use == 'refocusing' else 2
 
 
-def decode(seq, bid):
+def decode(seq, bid, F=F):
     import pypulseq as pp
     from pypulseq.calc_rf_center import calc_rf_center
     b = seq.get_block(bid)
@@ -226,6 +234,18 @@ def decode(seq, bid):
         r = b.rf
         d['rf'] = {'kind': 'rf', 'delay': F(r.delay), 'shape_dur': F(r.shape_dur), 'ringdown_time': F(r.ringdown_time),
                    'dead_time': F(r.dead_time), 't_last': F(r.t[-1]), 'center': F(calc_rf_center(r)[0]), 'use': rf_use_code(r)}
+        # how the time axis is stored in the library (input of the model's decode_rf_*)
+        try:
+            from pypulseq.decompress_shape import decompress_shape
+            tid = int(seq.rf_library.data[int(seq.block_events[bid][1])][3])
+            if tid == 0:
+                d['rf']['time_shape'] = ('regular', len(r.signal))
+            else:
+                sd = seq.shape_library.data[tid]
+                tl = decompress_shape(SimpleNamespace(num_samples=sd[0], data=np.asarray(sd[1:], dtype=float)))[-1]
+                d['rf']['time_shape'] = ('times', F(tl))
+        except Exception:  # noqa: BLE001
+            d['rf']['time_shape'] = None
     gr = seq.grad_raster_time
     for ch in ('gx', 'gy', 'gz'):
         g = getattr(b, ch)
@@ -252,7 +272,7 @@ def decode(seq, bid):
     return d
 
 
-def sys_fr(seq):
+def sys_fr(seq, F=F):
     o = seq.system
     return {'block': F(o.block_duration_raster), 'rf': F(o.rf_raster_time), 'grad': F(o.grad_raster_time),
             'adc': F(o.adc_raster_time), 'adc_dead': F(o.adc_dead_time), 'rf_dead': F(o.rf_dead_time),
